@@ -82,7 +82,12 @@ def check_pruner_arg(ctx: Ctx, cname: str, new: FuncInfo, call: ast.Call) -> Non
             ctx.violation("C05-O1", new, call, "patterns are sorted in reverse: a pattern is pruned against larger ones only, the result is not the canonical minimal basis")
             return
         if kw.arg == "key":
-            raise AnalysisError(f"{new.where}: sorted(..., key=...) – cannot decide whether the key refines the pattern order")
+            verdict = sort_key_injective(ctx, cname, kw.value)
+            if verdict is None:
+                raise AnalysisError(f"{new.where}: sorted(..., key=...) – cannot decide whether the key determines the pattern")
+            if verdict is not True:
+                ctx.violation("C05-O1", new, call, f"the sort key `{unparse(kw.value)[:70]}` does not determine the pattern ({verdict}): tied patterns keep their input order (sort is stable), so the basis depends on the order in which patterns were given")
+                return
     src = arg.args[0]
     if isinstance(src, ast.Name) and src.id == va:
         ctx.ok("C05-O1", new.where, f"_pruner(sorted({va})): all inputs, canonical order", call, new)
@@ -108,6 +113,36 @@ def check_pruner_arg(ctx: Ctx, cname: str, new: FuncInfo, call: ast.Call) -> Non
             ctx.violation("C05-O1", new, call, f"inputs are transformed by `{unparse(elt)[:70]}` before pruning; classical patterns must be wrapped as *unshaded* mesh patterns and mesh patterns kept as they are")
         return
     ctx.violation("C05-O1", new, call, f"sorted() is applied to `{unparse(src)[:60]}`, not to all input patterns")
+
+
+def sort_key_injective(ctx: Ctx, cname: str, key: ast.AST):
+    """True if the key determines the element (no ties between different patterns); a string reason if it
+    visibly loses information; None if unknown."""
+    if isinstance(key, ast.Name) and key.id in ("len", "sum", "max", "min", "hash"):
+        return f"{key.id}() is shared by many different patterns"
+    if not isinstance(key, ast.Lambda) or len(key.args.args) != 1:
+        return None
+    v = key.args.args[0].arg
+    comps = key.body.elts if isinstance(key.body, ast.Tuple) else [key.body]
+    if cname == "Basis":
+        # elements are permutations (tuples): the key must contain the permutation itself
+        for c in comps:
+            if unparse(c) in (v, f"tuple({v})"):
+                return True
+        return "the permutation itself is not part of the key"
+    fields = {"pattern": False, "shading": False}
+    for c in comps:
+        t = unparse(c)
+        if t == f"{v}.pattern":
+            fields["pattern"] = True
+        elif t in (f"sorted({v}.shading)", f"tuple(sorted({v}.shading))"):
+            fields["shading"] = True
+        elif t == v:
+            return True
+    missing = [f for f, ok in fields.items() if not ok]
+    if missing:
+        return f"it does not determine {missing}"
+    return True
 
 
 def check_pruner_body(ctx: Ctx, cname: str, pr: FuncInfo) -> None:
@@ -277,6 +312,9 @@ def _variants():
         V("meshbasis-filter-inputs", replace_expr(BA, "MeshBasis.__new__", "sorted((patt if isinstance(patt, MeshPatt) else MeshPatt(patt, []) for patt in patts))",
                                                   "sorted((patt if isinstance(patt, MeshPatt) else MeshPatt(patt, []) for patt in patts if len(patt) > 0))"), "fire", "C05-O1"),
         V("meshbasis-wrap-shaded", replace_expr(BA, "MeshBasis.__new__", "MeshPatt(patt, [])", "MeshPatt(patt, [(0, 0)])"), "fire", "C05-O1"),
+        V("meshbasis-key-with-ties", replace_expr(BA, "MeshBasis.__new__", "sorted((patt if isinstance(patt, MeshPatt) else MeshPatt(patt, []) for patt in patts))", "sorted((patt if isinstance(patt, MeshPatt) else MeshPatt(patt, []) for patt in patts), key=lambda m: (m.pattern, len(m.shading)))"), "fire", "C05-O1"),
+        V("basis-key-length-only", replace_expr(BA, "Basis.__new__", "sorted(patts)", "sorted(patts, key=len)"), "fire", "C05-O1"),
+        V("meshbasis-key-total", replace_expr(BA, "MeshBasis.__new__", "sorted((patt if isinstance(patt, MeshPatt) else MeshPatt(patt, []) for patt in patts))", "sorted((patt if isinstance(patt, MeshPatt) else MeshPatt(patt, []) for patt in patts), key=lambda m: (m.pattern, sorted(m.shading)))"), "silent"),
         V("pruner-reversed-pass", replace_expr(BA, "Basis._pruner", "patts", "reversed(patts)", which=3), "fire-or-undecided", "C05-O1"),
         V("pruner-accept-contains", replace_expr(BA, "MeshBasis._pruner", "patt.avoids(*new_basis)", "patt.contains(*new_basis)"), "fire", "C05-O1"),
         V("pruner-against-input", replace_expr(BA, "Basis._pruner", "patt.avoids(*new_basis)", "patt.avoids(*patts)"), "fire-or-undecided", "C05-O1"),
